@@ -47,6 +47,8 @@ def tasks(tier, seed):
     for M in ((1, 2, 3) if quick else (1, 2, 3, 4, 5)):
         T.append(('sweeper', M, 'implicit'))
         T.append(('sweeper', M, 'imex'))
+        if M >= 2:
+            T.append(('sweeper', M, 'implicit', True))  # G_inv installed with set_G_inv after construction
     for (M, L, alpha) in (((2, 2, 1e-2), (2, 3, 1e-4), (1, 3, 0.5), (3, 2, 1e-2), (2, 5, 1e-10), (1, 6, 1e-9)) if quick else ((2, 2, 1e-2), (2, 3, 1e-4), (1, 3, 0.9), (3, 2, 1e-2), (2, 4, 1e-3), (3, 3, 1e-6), (1, 5, 0.5), (2, 5, 1e-10), (1, 7, 1e-9), (1, 8, 1e-10), (2, 4, 1e-12))):
         T.append(('iteration', M, L, alpha))
     return T
@@ -59,7 +61,7 @@ def run_task(rep, task):
     elif task[0] == 'sweeper':
         from harness.c02_rk import diag_case
 
-        diag_case(rep, task[1], task[2])
+        diag_case(rep, task[1], task[2], reconf=(len(task) > 3 and bool(task[3])))
     elif task[0] == 'iteration':
         iteration_case(rep, *task[1:])
 
